@@ -49,6 +49,13 @@ def rule_order(ck: Check, repo: Repo) -> None:
             if not v.startswith("sorted("):
                 r.violation("reuse.header._create_new_header", f"S5: template argument {kw.arg} is not sorted",
                             f"{kw.arg}={v}: a set rendered in iteration order changes the header between runs", repo.loc(c))
+            elif isinstance(kw.value, ast.Call) and any(k.arg == "key" for k in kw.value.keywords):
+                from ..taint import _injective_key
+                key = next(k.value for k in kw.value.keywords if k.arg == "key")
+                if not _injective_key(key):
+                    r.violation("reuse.header._create_new_header", f"S5: template argument {kw.arg} is sorted with a key under which lines can tie",
+                                f"{kw.arg}={v}: sorted() is stable, so lines that are equal under the key keep the set's iteration"
+                                f" order, which changes with the hash seed - two runs write the lines in different order", repo.loc(c))
     r.floor(3, "template arguments", got=sum(len(c.keywords) for c in calls))
 
 
